@@ -229,3 +229,26 @@ Lemma media_examples :
   (exists c, classify any_ok any_ok any_ok repaired st_room (IDoc ex_chat) = VDispatch [c; CStore false]) /\
   (exists c, classify any_ok any_ok any_ok repaired st_room (IDoc ex_chat_refresh) = VDispatch [c; CStore true]).
 Proof. repeat split; try (eexists; vm_compute; reflexivity); vm_compute; reflexivity. Qed.
+
+(* ---- strengthening s10: the errors this layer itself answers with are well-formed for P_C10 --------------------------
+   Every reply the model prescribes directly (decode error, failed validation, hello expected, ...) is an error
+   with a non-empty code, i.e. it passes the "well-formed reply" clause [reply_wf] of P_C10.  What the handlers
+   behind the dispatch answer (a refused hello: processHello) is bounded in [reply_allowed] and checked on the
+   implementation: hello reply, or an error with a code carrying the id of the request. *)
+Lemma error_replies_coded : forall v code id, In (code, id) (e_replies (effect_of v)) -> code <> "".
+Proof.
+  intros v code id H. destruct v as [| |c i| | |]; simpl in H; try contradiction.
+  - destruct H as [H|[]]. inversion H. discriminate.
+  - destruct H as [H|[]]. inversion H. destruct c; discriminate.
+Qed.
+
+Lemma model_replies_wf : forall v, forallb reply_wf (map (fun e => RError (fst e) (snd e)) (e_replies (effect_of v))) = true.
+Proof. intros v. destruct v as [| |c i| | |]; try reflexivity. destruct c; reflexivity. Qed.
+
+(* an error without its code, and the error message without error member (projected to RBad), are refused *)
+Lemma reply_wf_examples :
+  reply_wf (RError "" "h") = false /\ reply_wf RBad = false /\ reply_wf (RError "invalid_token" "h") = true /\ reply_wf (RHello "h") = true /\
+  reply_allowed "h" (CHello "2.0" [] (HClient true false "u" JNull "t")) (RError "" "h") = false /\
+  reply_allowed "h" (CHello "2.0" [] (HClient true false "u" JNull "t")) (RError "invalid_token" "h") = true /\
+  reply_allowed "h" (CHello "2.0" [] (HClient true false "u" JNull "t")) (RError "invalid_token" "other") = false.
+Proof. repeat split; reflexivity. Qed.
